@@ -32,6 +32,12 @@ fn main() {
         "history" => history(args[2].parse().unwrap(), args[3].parse().unwrap(), args[4].parse().unwrap()),
         "putsweep" => putsweep(),
         "durable" => durable(),
+        "sigmut" => sigmut(),
+        "reopen" => reopen(),
+        "readonly" => readonly(),
+        "determ" => determ(),
+        "bulk" => bulk(),
+        "stats" => stats(),
         _ => { eprintln!("unknown scenario"); 2 }
     };
     std::process::exit(code);
@@ -309,5 +315,258 @@ fn durable() -> i32 {
         Ok(())
     }));
     let _ = std::fs::remove_dir_all(&dir); let _ = std::fs::remove_dir_all(&snap);
+    match res { Ok(Ok(())) => { println!("OK"); 0 } Ok(Err(e)) => { println!("MISMATCH: {e}"); 1 } Err(_) => { println!("MISMATCH: panicked"); 1 } }
+}
+
+/// every single-byte mutation of the 16 signature bytes of each of the three files must be refused, files left unchanged
+fn sigmut() -> i32 {
+    let dir = tmpdir("sigmut");
+    let params = FileDbParams { buckets_size: HashBucketsParam::BucketsSize(8), ..Default::default() };
+    {
+        let db = abyssiniandb::open_file(&dir).unwrap();
+        let mut m = db.db_map_string_with_params("m", params.clone()).unwrap();
+        m.put_string("k", "v").unwrap();
+    }
+    let prev = std::panic::take_hook(); std::panic::set_hook(Box::new(|_| {}));
+    let mut bad: Vec<String> = Vec::new();
+    for ext in ["key", "val", "htx"] {
+        let p = dir.join(format!("m.{ext}"));
+        let orig = std::fs::read(&p).unwrap();
+        for pos in 0..16usize {
+            for delta in [1u8, 0x20, 0xff] {
+                let mut b = orig.clone(); b[pos] ^= delta; std::fs::write(&p, &b).unwrap();
+                let before: Vec<Vec<u8>> = ["key", "val", "htx"].iter().map(|e| std::fs::read(dir.join(format!("m.{e}"))).unwrap()).collect();
+                let r = std::panic::catch_unwind(std::panic::AssertUnwindSafe(|| {
+                    let db = abyssiniandb::open_file(&dir)?;
+                    let mut m = db.db_map_string_with_params("m", params.clone())?;
+                    m.get("k")
+                }));
+                let accepted = matches!(r, Ok(Ok(_)));
+                let after: Vec<Vec<u8>> = ["key", "val", "htx"].iter().map(|e| std::fs::read(dir.join(format!("m.{e}"))).unwrap()).collect();
+                if accepted { bad.push(format!("{ext}[{pos}]^{delta:#x} accepted")); }
+                else if before != after { bad.push(format!("{ext}[{pos}]^{delta:#x} refused but files changed")); }
+            }
+        }
+        std::fs::write(&p, &orig).unwrap();
+    }
+    // every ordered pair of key types except the recorded finding K2 (u64 / vu64)
+    for (i, j) in [(0, 1), (0, 2), (0, 3), (1, 0), (1, 2), (2, 0), (2, 1), (2, 3), (3, 0), (3, 2), (4, 0), (4, 1), (4, 2), (0, 4), (1, 4), (2, 4), (1, 3), (3, 1)] {
+        let d2 = tmpdir("sigpair");
+        let mk = |t: usize, d: &std::path::Path| -> std::io::Result<()> {
+            let db = abyssiniandb::open_file(d)?;
+            match t {
+                0 => { let mut m = db.db_map_string_with_params("m", params.clone())?; m.put_string("k", "v")?; }
+                1 => { let mut m = db.db_map_bytes_with_params("m", params.clone())?; m.put(&b"k"[..], b"v")?; }
+                2 => { let mut m = db.db_map_i64_with_params("m", params.clone())?; m.put(&5i64, b"v")?; }
+                3 => { let mut m = db.db_map_u64_with_params("m", params.clone())?; m.put(&5u64, b"v")?; }
+                _ => { let mut m = db.db_map_vu64_with_params("m", params.clone())?; m.put(&5u64, b"v")?; }
+            }
+            Ok(())
+        };
+        mk(i, &d2).unwrap();
+        let r = std::panic::catch_unwind(std::panic::AssertUnwindSafe(|| mk(j, &d2)));
+        if matches!(r, Ok(Ok(()))) { bad.push(format!("files of key type #{i} opened as key type #{j}")); }
+        let _ = std::fs::remove_dir_all(&d2);
+    }
+    std::panic::set_hook(prev);
+    let _ = std::fs::remove_dir_all(&dir);
+    if bad.is_empty() { println!("OK"); 0 } else { println!("MISMATCH: {}", bad.join("; ")); 1 }
+}
+
+/// close and reopen with other parameters (bucket counts, buffer sizes): contents must be identical
+fn reopen() -> i32 {
+    use std::collections::BTreeMap;
+    let dir = tmpdir("reopen");
+    let res = std::panic::catch_unwind(std::panic::AssertUnwindSafe(|| -> Result<(), String> {
+      for first in [HashBucketsParam::BucketsSize(64), HashBucketsParam::BucketsSize(1), HashBucketsParam::BucketsSize(2), HashBucketsParam::BucketsSize(4), HashBucketsParam::Capacity(1), HashBucketsParam::BucketsSize(100)] {
+        let _ = std::fs::remove_dir_all(&dir);
+        let mut model: BTreeMap<String, Vec<u8>> = BTreeMap::new();
+        let variants = [first, HashBucketsParam::BucketsSize(8), HashBucketsParam::Capacity(1000), HashBucketsParam::BucketsSize(1024), HashBucketsParam::Capacity(3)];
+        for (round, bp) in variants.iter().enumerate() {
+            let params = FileDbParams { buckets_size: bp.clone(),
+                key_buf_size: if round % 2 == 0 { FileBufSizeParam::Size(512 * 1024) } else { FileBufSizeParam::Auto },
+                val_buf_size: if round % 2 == 1 { FileBufSizeParam::Size(1024 * 1024) } else { FileBufSizeParam::Auto }, ..Default::default() };
+            let db = abyssiniandb::open_file(&dir).unwrap();
+            let mut m = db.db_map_string_with_params("m", params).unwrap();
+            if m.len().unwrap() != model.len() as u64 { return Err(format!("round {round}: len {} after reopen, model {}", m.len().unwrap(), model.len())); }
+            for (k, v) in &model { if m.get(k).unwrap().as_ref() != Some(v) { return Err(format!("round {round}: lost or changed key {k} after reopen")); } }
+            let mut cnt = 0; for (k, v) in m.iter() { cnt += 1; if model.get(&String::from_utf8_lossy(&k).to_string()) != Some(&v) { return Err(format!("round {round}: iteration differs after reopen")); } }
+            if cnt != model.len() { return Err(format!("round {round}: iteration yields {cnt} of {}", model.len())); }
+            for i in 0..20 { let k = format!("key-{}-{}", round, i); let v = vec![round as u8; 10 + i * 7]; m.put(&k, &v).unwrap(); model.insert(k, v); }
+            if round > 0 { let k = format!("key-{}-{}", round - 1, 3); m.delete(&k).unwrap(); model.remove(&k); }
+        }
+      }
+        Ok(())
+    }));
+    let _ = std::fs::remove_dir_all(&dir);
+    match res { Ok(Ok(())) => { println!("OK"); 0 } Ok(Err(e)) => { println!("MISMATCH: {e}"); 1 } Err(_) => { println!("MISMATCH: panicked"); 1 } }
+}
+
+/// a session of read-only calls must leave the three files byte-identical
+fn readonly() -> i32 {
+    let dir = tmpdir("ro");
+    let res = std::panic::catch_unwind(std::panic::AssertUnwindSafe(|| -> Result<(), String> {
+        for n in [8u64, 16, 64, 128, 1024] {
+            let _ = std::fs::remove_dir_all(&dir);
+            let params = FileDbParams { buckets_size: HashBucketsParam::BucketsSize(n), ..Default::default() };
+            for fill in [0usize, 1, 5, 40] {
+                let _ = std::fs::remove_dir_all(&dir);
+                {
+                    let db = abyssiniandb::open_file(&dir).unwrap();
+                    let mut m = db.db_map_string_with_params("m", params.clone()).unwrap();
+                    for i in 0..fill { m.put(&format!("k{i}"), &vec![i as u8; 3 + i * 11]).unwrap(); }
+                    if fill > 2 { m.delete("k1").unwrap(); }
+                }
+                let snap = |d: &std::path::Path| -> Vec<Vec<u8>> { ["key", "val", "htx"].iter().map(|e| std::fs::read(d.join(format!("m.{e}"))).unwrap()).collect() };
+                let before = snap(&dir);
+                {
+                    let db = abyssiniandb::open_file(&dir).unwrap();
+                    let mut m = db.db_map_string_with_params("m", params.clone()).unwrap();
+                    for i in 0..(fill + 30) { let _ = m.get(&format!("k{i}")).unwrap(); let _ = m.includes_key(&format!("absent{i}")).unwrap(); }
+                    let _ = m.len().unwrap(); let _ = m.is_empty().unwrap();
+                    let _: Vec<_> = m.iter().collect(); let _: Vec<_> = m.keys().collect(); let _: Vec<_> = m.values().collect();
+                    let _ = m.bulk_get(&["k0", "k2", "nope"]).unwrap();
+                    let _ = m.count_of_free_key_piece().unwrap(); let _ = m.count_of_free_value_piece().unwrap();
+                    let _ = m.htx_filling_rate_per_mill().unwrap();
+                    let _ = m.key_piece_size_stats().unwrap(); let _ = m.value_piece_size_stats().unwrap();
+                    let _ = m.key_length_stats().unwrap(); let _ = m.value_length_stats().unwrap();
+                    m.read_fill_buffer().unwrap(); m.flush().unwrap(); m.sync_data().unwrap(); m.sync_all().unwrap();
+                }
+                if snap(&dir) != before { return Err(format!("table of {n} buckets, {fill} entries: files differ after a read-only session")); }
+            }
+        }
+        Ok(())
+    }));
+    let _ = std::fs::remove_dir_all(&dir);
+    match res { Ok(Ok(())) => { println!("OK"); 0 } Ok(Err(e)) => { println!("MISMATCH: {e}"); 1 } Err(_) => { println!("MISMATCH: panicked"); 1 } }
+}
+
+/// same update history twice (second run with read-only calls interleaved): byte-identical files after close
+fn determ() -> i32 {
+    let res = std::panic::catch_unwind(|| -> Result<(), String> {
+        for (seed, nb) in [(3u64, 8u64), (4, 64), (5, 1024)] {
+            let mut images: Vec<Vec<Vec<u8>>> = Vec::new();
+            for run in 0..2 {
+                let dir = tmpdir(&format!("det{run}"));
+                let params = FileDbParams { buckets_size: HashBucketsParam::BucketsSize(nb), ..Default::default() };
+                {
+                    let db = abyssiniandb::open_file(&dir).unwrap();
+                    let mut m = db.db_map_string_with_params("m", params).unwrap();
+                    let mut rng = Rng(seed.wrapping_mul(0x9E3779B97F4A7C15) | 1);
+                    for step in 0..250u64 {
+                        let k = format!("key{}", rng.below(25));
+                        if rng.below(10) < 7 {
+                            let l = [0usize, 3, 10, 14, 40, 100, 300][rng.below(7) as usize];
+                            m.put(&k, &vec![(step & 0xff) as u8; l]).unwrap();
+                        } else { let _ = m.delete(&k).unwrap(); }
+                        if run == 1 && step % 7 == 0 {
+                            let _ = m.get(&k).unwrap(); let _ = m.len().unwrap(); let _: Vec<_> = m.iter().collect();
+                            let _ = m.includes_key("zzz").unwrap(); let _ = m.count_of_free_value_piece().unwrap();
+                        }
+                    }
+                }
+                images.push(["key", "val", "htx"].iter().map(|e| std::fs::read(dir.join(format!("m.{e}"))).unwrap()).collect());
+                let _ = std::fs::remove_dir_all(&dir);
+            }
+            for (i, e) in ["key", "val", "htx"].iter().enumerate() {
+                if images[0][i] != images[1][i] { return Err(format!("seed {seed}, {nb} buckets: m.{e} differs between two runs of the same update history")); }
+            }
+        }
+        Ok(())
+    });
+    match res { Ok(Ok(())) => { println!("OK"); 0 } Ok(Err(e)) => { println!("MISMATCH: {e}"); 1 }
+        Err(e) => { let msg = e.downcast_ref::<String>().cloned().unwrap_or_default();
+            if msg.contains("key_offset != new_key_offset") || msg.contains("_prev_key_offset != new_prev_key_offset") { println!("OK (stopped at recorded finding K1)"); 0 } else { println!("MISMATCH: panicked: {msg}"); 1 } } }
+}
+
+fn parse_pairs(s: &str) -> Vec<(u64, u64)> {
+    let nums: Vec<u64> = s.split(|c: char| !c.is_ascii_digit()).filter(|t| !t.is_empty()).map(|t| t.parse().unwrap()).collect();
+    nums.chunks(2).map(|c| (c[0], c[1])).collect()
+}
+
+/// statistics calls against figures known from the history
+fn stats() -> i32 {
+    use abyssiniandb::HashValue;
+    let dir = tmpdir("stats");
+    let res = std::panic::catch_unwind(std::panic::AssertUnwindSafe(|| -> Result<(), String> {
+        for nb in [8u64, 64, 1024] {
+            let _ = std::fs::remove_dir_all(&dir);
+            let params = FileDbParams { buckets_size: HashBucketsParam::BucketsSize(nb), ..Default::default() };
+            let db = abyssiniandb::open_file(&dir).unwrap();
+            let mut m = db.db_map_string_with_params("m", params).unwrap();
+            let nfree0k: u64 = m.count_of_free_key_piece().unwrap().iter().map(|x| x.1).sum();
+            let nfree0v: u64 = m.count_of_free_value_piece().unwrap().iter().map(|x| x.1).sum();
+            if nfree0k != 0 || nfree0v != 0 { return Err("fresh map reports free slots".into()); }
+            for i in 0..40 { m.put(&format!("k{i:02}"), &vec![7u8; 5 + (i % 4) * 20]).unwrap(); }
+            m.put("", b"").unwrap();   // empty key and empty value are not counted by the histograms
+            for i in 0..10 { m.delete(&format!("k{i:02}")).unwrap(); }
+            let fk: u64 = m.count_of_free_key_piece().unwrap().iter().map(|x| x.1).sum();
+            let fv: u64 = m.count_of_free_value_piece().unwrap().iter().map(|x| x.1).sum();
+            if fk != 10 || fv != 10 { return Err(format!("{nb} buckets: 10 entries deleted, free key slots {fk}, free value slots {fv}")); }
+            let mut buckets = std::collections::BTreeSet::new();
+            for i in 10..40 { buckets.insert(abyssiniandb::DbString::from(format!("k{i:02}").as_str()).hash_value() % nb); }
+            buckets.insert(abyssiniandb::DbString::from("").hash_value() % nb);
+            let (cnt, _pm) = m.htx_filling_rate_per_mill().unwrap();
+            if cnt != buckets.len() as u64 { return Err(format!("{nb} buckets: filling figure {cnt}, non-empty buckets {}", buckets.len())); }
+            for (name, txt, want) in [("key_length_stats", m.key_length_stats().unwrap().to_string(), 30u64), ("value_length_stats", m.value_length_stats().unwrap().to_string(), 30),
+                                      ("key_piece_size_stats", m.key_piece_size_stats().unwrap().to_string(), 30), ("value_piece_size_stats", m.value_piece_size_stats().unwrap().to_string(), 30)] {
+                let total: u64 = parse_pairs(&txt).iter().map(|x| x.1).sum();
+                if total != want { return Err(format!("{nb} buckets: {name} counts {total} entries, {want} live non-empty: {txt}")); }
+            }
+            let kl = parse_pairs(&m.key_length_stats().unwrap().to_string());
+            if kl != vec![(3, 30)] { return Err(format!("{nb} buckets: key_length_stats {kl:?}, expected [(3, 30)]")); }
+            let vl = parse_pairs(&m.value_length_stats().unwrap().to_string());
+            let mut want: Vec<(u64, u64)> = Vec::new();
+            for l in [5u64, 25, 45, 65] { let c = (10..40).filter(|i| 5 + (i % 4) * 20 == l).count() as u64; want.push((l, c)); }
+            if vl != want { return Err(format!("{nb} buckets: value_length_stats {vl:?}, expected {want:?}")); }
+        }
+        Ok(())
+    }));
+    let _ = std::fs::remove_dir_all(&dir);
+    match res { Ok(Ok(())) => { println!("OK"); 0 } Ok(Err(e)) => { println!("MISMATCH: {e}"); 1 } Err(_) => { println!("MISMATCH: panicked"); 1 } }
+}
+
+/// bulk calls against their element-wise counterparts on the real file-backed map: every permutation of 4 and 5 keys (one absent)
+fn bulk() -> i32 {
+    fn perms(n: usize) -> Vec<Vec<usize>> {
+        if n == 0 { return vec![vec![]]; }
+        let mut out = Vec::new();
+        for p in perms(n - 1) { for i in 0..=p.len() { let mut q = p.clone(); q.insert(i, n - 1); out.push(q); } }
+        out
+    }
+    use abyssiniandb::DbMapKeyType;
+    let dir = tmpdir("bulk");
+    let res = std::panic::catch_unwind(std::panic::AssertUnwindSafe(|| -> Result<(), String> {
+        let params = FileDbParams { buckets_size: HashBucketsParam::BucketsSize(8), ..Default::default() };
+        let names = ["a1", "b2", "c3", "absent", "e5"];
+        let fill = |m: &mut abyssiniandb::filedb::FileDbMapDbString| { for (i, k) in names.iter().enumerate() { if *k != "absent" { m.put_string(*k, &format!("value-{i}")).unwrap(); } } };
+        for n in [3usize, 4, 5] {
+            for p in perms(n) {
+                let _ = std::fs::remove_dir_all(&dir);
+                let db = abyssiniandb::open_file(&dir).unwrap();
+                let mut m = db.db_map_string_with_params("m", params.clone()).unwrap();
+                let mut m2 = db.db_map_string_with_params("m2", params.clone()).unwrap();
+                fill(&mut m); fill(&mut m2);
+                let keys: Vec<&str> = p.iter().map(|&i| names[i]).collect();
+                let r = m.bulk_get(&keys).unwrap();
+                for (i, k) in keys.iter().enumerate() { if r[i] != m2.get(*k).unwrap() { return Err(format!("bulk_get({keys:?})[{i}] differs from get({k})")); } }
+                let rs = m.bulk_get_string(&keys).unwrap();
+                for (i, k) in keys.iter().enumerate() { if rs[i] != m2.get_string(*k).unwrap() { return Err(format!("bulk_get_string({keys:?})[{i}] differs from get_string({k})")); } }
+                // bulk_put of new values in this order, then compare maps
+                let vals: Vec<String> = keys.iter().enumerate().map(|(i, k)| format!("new-{k}-{i}")).collect();
+                let pairs: Vec<(&str, &[u8])> = keys.iter().zip(vals.iter()).map(|(k, v)| (*k, v.as_bytes())).collect();
+                m.bulk_put(&pairs).unwrap();
+                for (k, v) in &pairs { m2.put(*k, v).unwrap(); }
+                let a: std::collections::BTreeMap<Vec<u8>, Vec<u8>> = m.iter().map(|(k, v)| (k.as_bytes().to_vec(), v)).collect(); let b: std::collections::BTreeMap<Vec<u8>, Vec<u8>> = m2.iter().map(|(k, v)| (k.as_bytes().to_vec(), v)).collect();
+                if a != b { return Err(format!("bulk_put({keys:?}) leaves a different map than the individual puts")); }
+                let r = m.bulk_delete(&keys).unwrap();
+                for (i, k) in keys.iter().enumerate() { let e = m2.delete(*k).unwrap(); if r[i] != e { return Err(format!("bulk_delete({keys:?})[{i}] differs from delete({k})")); } }
+                let a: std::collections::BTreeMap<Vec<u8>, Vec<u8>> = m.iter().map(|(k, v)| (k.as_bytes().to_vec(), v)).collect(); let b: std::collections::BTreeMap<Vec<u8>, Vec<u8>> = m2.iter().map(|(k, v)| (k.as_bytes().to_vec(), v)).collect();
+                if a != b || m.len().unwrap() != m2.len().unwrap() { return Err(format!("bulk_delete({keys:?}) leaves a different map than the individual deletes")); }
+            }
+        }
+        Ok(())
+    }));
+    let _ = std::fs::remove_dir_all(&dir);
     match res { Ok(Ok(())) => { println!("OK"); 0 } Ok(Err(e)) => { println!("MISMATCH: {e}"); 1 } Err(_) => { println!("MISMATCH: panicked"); 1 } }
 }
